@@ -1,6 +1,7 @@
 import MdkVerif.Generated
 import MdkVerif.Model.Welcome
 import MdkVerif.Proofs.Welcome
+import MdkVerif.Proofs.WelcomeNid
 /-
   C16 — Invitations are idempotent, consent-gated and cannot disturb existing groups.
   Property theorems only (frame lemmas of the storage writes live in Proofs/Welcome.lean).
@@ -549,7 +550,7 @@ def wInv : Invite :=
 
 /-- the group moves on: a commit from state 0 to state 1 (epoch 2) -/
 def wCommit : Commit :=
-  { gid := 1, nid := 101, fromTok := 0, toTok := 1, toEpoch := 2, members := 2, nameLen := 5, removesMe := false }
+  { gid := 1, nid := 101, toNid := 101, fromTok := 0, toTok := 1, toEpoch := 2, members := 2, nameLen := 5, removesMe := false }
 
 /-- a client that received the invitation under wrapper 10, accepted it and followed the group to epoch 2 -/
 def cJoined (b : Backend) : Client :=
@@ -649,5 +650,284 @@ theorem welcome_step_order :
     Welcome.declineOrder = Generated.welcomeDeclineOrder ∧ Generated.welcomeProcessDedupsByRumorId = true ∧
     Generated.acceptRefusesAccepted = true ∧ Generated.welcomeReplacesOldGroup = true ∧
     Generated.welcomeProcessChecksHeldGroup = false := by decide
+
+/-- **save_group_uniqueness_as_modelled.**  The uniqueness rule `Model.Store.saveGroup` transcribes is what
+    the source says on this run: the SQLite upsert of `save_group` names `mls_group_id` as its conflict target
+    (a bare `ON CONFLICT DO UPDATE` would turn a conflict on the UNIQUE index of `nostr_group_id` into an UPDATE of
+    the OTHER group's row), the UNIQUE index on `groups(nostr_group_id)` exists, and the memory backend looks the
+    new id up in its by-id index and refuses a foreign owner before it writes; `save_group(Pending)` is the first
+    storage write of `process_welcome` after the dedup lookups (positions of step 3 in `welcomeProcessOrder`). -/
+theorem save_group_uniqueness_as_modelled :
+    Generated.sqlSaveGroupConflictTarget = ["mls_group_id"] ∧ Generated.sqlNostrGroupIdUnique = true ∧
+    Generated.memSaveGroupRefusesForeignNostrId = true ∧
+    (Generated.welcomeProcessOrder.takeWhile (· ≠ 3)).all (fun x => x ∈ [0, 5, 1, 10, 6, 2]) = true := by decide
+
+
+/-! ## 8. the nostr group id: collisions, uniqueness, routing
+
+    The invitation's group data (and with it the nostr group id, the key by which kind-445 events are routed
+    to a group: `find_group_by_nostr_group_id` is the first step of `process_message`) is chosen by the inviter;
+    the id of any group is public (it is the `h` tag).  A hostile inviter can therefore hand the user an
+    invitation to its OWN group M that carries the id of a group G the user holds.  What stands between that
+    invitation and G's record is the uniqueness rule of `save_group` (Model.Store.saveGroup, both backends;
+    tied to the source by `save_group_uniqueness_as_modelled`). -/
+
+/-- the routing invariant of a client's store (`Proofs/WelcomeNid.lean`): no two records share a nostr group
+    id, no two records share an MLS group id, and the memory backend's by-id index answers every record's id with
+    that record -/
+abbrev NidOK (c : Client) : Prop := NidInv c.store
+
+/-- the invitation collides: its nostr group id is carried by the record of ANOTHER group of the recipient
+    (in any state: Active, Pending, Inactive) -/
+def collides (c : Client) (m : Invite) : Prop := HeldByOther c.store m.nid m.gid
+
+theorem processFresh_collision (c : Client) (wr rid : Nat) (m : Invite) (hinv : NidOK c) (hc : collides c m) :
+    processFresh c wr m rid =
+      if m.shape = 2 then ({ c with store := savePw c.store (failedPw wr m) }, .err .welcome) else (c, .err .group) := by
+  have : saveGroup c.store (pendingGroup m) = none := saveGroup_collision c.store (pendingGroup m) hinv hc
+  unfold processFresh
+  simp [this]
+
+/-- **collision_refused.**  A decodable invitation met for the first time (neither its wrapper id nor its
+    rumor id known) whose nostr group id is held by another group of the recipient is REFUSED by
+    `process_welcome` (`Error::Group`), on both backends, whatever else the invitation contains — and the
+    client is literally unchanged.  (The first conjunct names the facts of the source the uniqueness rule of
+    the storage model transcribes: the SQLite upsert names its conflict target `mls_group_id`, the UNIQUE index
+    on `groups(nostr_group_id)` exists, the memory backend checks its by-id index before writing.) -/
+theorem collision_refused (c : Client) (wr rid : Nat) (m : Invite) (hinv : NidOK c) (hc : collides c m)
+    (hs1 : m.shape ≠ 1) (hs2 : m.shape ≠ 2) (hrid : m.rid = some rid)
+    (hpw : findPw c.store wr = none) (hnw : findWelcome c.store rid = none) :
+    (Generated.sqlSaveGroupConflictTarget = ["mls_group_id"] ∧ Generated.sqlNostrGroupIdUnique = true ∧
+      Generated.memSaveGroupRefusesForeignNostrId = true) ∧
+    process c wr m = (c, .err .group) := by
+  refine ⟨by decide, ?_⟩
+  unfold process
+  simp only [hs1, if_false, hrid, hpw, hnw]
+  rw [processFresh_collision c wr rid m hinv hc]
+  simp [hs2]
+
+/-- **collision_leftovers** (what a colliding invitation leaves behind, ALL cases).  Whatever the
+    invitation's shape and whatever is already known of it, `process_welcome` of a colliding invitation
+    leaves the client unchanged or adds exactly one processed-welcome (dedup) record — the Failed record of an
+    undecodable rumor or the Processed record of a replayed, already stored rumor, as for any other
+    invitation; a refused decodable one leaves NOTHING (`collision_refused`): no record, no welcome, no group,
+    no MLS state.  So it can be retried under the same wrapper id, it is refused the same way for as long as
+    the collision lasts, and it can be neither accepted nor declined (there is no stored welcome). -/
+theorem collision_leftovers (c : Client) (wr : Nat) (m : Invite) (hinv : NidOK c) (hc : collides c m) :
+    ((process c wr m).1 = c ∨ ∃ p, (process c wr m).1 = { c with store := savePw c.store p }) ∧
+    (∀ rid, m.shape ≠ 1 → m.shape ≠ 2 → m.rid = some rid → findPw c.store wr = none → findWelcome c.store rid = none →
+      process (process c wr m).1 wr m = (c, .err .group) ∧
+      accept (process c wr m).1 m = (c, .err .noStored) ∧ decline (process c wr m).1 m = (c, .err .noStored)) := by
+  constructor
+  · unfold process
+    split
+    · exact Or.inl rfl
+    · split
+      · exact Or.inl rfl
+      · rename_i rid hrid
+        split
+        · split
+          · exact Or.inl rfl
+          · split
+            · split <;> exact Or.inl rfl
+            · exact Or.inl rfl
+        · split
+          · exact Or.inr ⟨_, rfl⟩
+          · rw [processFresh_collision c wr rid m hinv hc]
+            split
+            · exact Or.inr ⟨_, rfl⟩
+            · exact Or.inl rfl
+  · intro rid hs1 hs2 hrid hpw hnw
+    have h := (collision_refused c wr rid m hinv hc hs1 hs2 hrid hpw hnw).2
+    rw [h]
+    refine ⟨h, ?_, ?_⟩
+    · unfold accept; simp [hrid, hnw]
+    · unfold decline; simp [hrid, hnw]
+
+/-- **collision_frame.**  `process_welcome` of a colliding invitation — any shape, any wrapper id, any
+    dedup state, whatever it contains — changes NO group of the recipient: the list of group records (every
+    field of every record incl. nostr group id, state, epoch, name, admins), the relays, the stored welcomes,
+    the messages, the MLS states and the memory backend's by-id index are the same; hence the projection of
+    the held group and of every other group is unchanged, the store answers every nostr group id as before
+    (routing), and the routing invariant still holds.  This extends `no_disturb_when_harmless` (which covers the
+    collision only when the invitation's OWN group is not Active) to every state of the invitation's group. -/
+theorem collision_frame (c : Client) (wr : Nat) (m : Invite) (hinv : NidOK c) (hc : collides c m) :
+    sameGroups c (process c wr m).1 ∧ (process c wr m).1.store.byNid = c.store.byNid ∧
+    (process c wr m).1.store.msgs = c.store.msgs ∧
+    (∀ gid, proj (process c wr m).1 gid = proj c gid) ∧
+    (∀ n, findGroupNostr (process c wr m).1.store n = findGroupNostr c.store n) ∧
+    NidOK (process c wr m).1 := by
+  have key : ∀ c' : Client, (c' = c ∨ ∃ p, c' = { c with store := savePw c.store p }) →
+      sameGroups c c' ∧ c'.store.byNid = c.store.byNid ∧ c'.store.msgs = c.store.msgs ∧
+      (∀ gid, proj c' gid = proj c gid) ∧ (∀ n, findGroupNostr c'.store n = findGroupNostr c.store n) ∧ NidOK c' := by
+    intro c' h
+    rcases h with rfl | ⟨p, rfl⟩
+    · exact ⟨⟨rfl, rfl, rfl, rfl⟩, rfl, rfl, fun _ => rfl, fun _ => rfl, hinv⟩
+    · exact ⟨⟨rfl, rfl, rfl, rfl⟩, rfl, rfl, fun _ => rfl, fun _ => rfl, savePw_nidInv _ _ hinv⟩
+  exact key _ (collision_leftovers c wr m hinv hc).1
+
+/-- `harmless`, widened by the collision case: an invitation (to any group, also one the user is Active in) whose
+    nostr group id another record of the recipient carries -/
+def harmlessOrColliding (c : Client) (o : IOp) : Prop :=
+  harmless c o ∨ (NidOK c ∧ ∃ wr m, o = .process wr m ∧ collides c m)
+
+/-- **no_disturb_when_harmless_or_colliding.**  `no_disturb` for every operation in `harmless` and, in addition,
+    for `process_welcome` of every colliding invitation. -/
+theorem no_disturb_when_harmless_or_colliding (c : Client) (o : IOp) (hH : harmlessOrColliding c o) (gid : Nat)
+    (ha : isActive c gid = true) : proj (apply c o).1 gid = proj c gid := by
+  rcases hH with h | ⟨hinv, wr, m, rfl, hc⟩
+  · exact no_disturb_when_harmless c o h gid ha
+  · exact (collision_frame c wr m hinv hc).2.2.2.1 gid
+
+/-- a client that holds group 1 Active (`cJoined`) satisfies the hypotheses: the routing invariant holds and an
+    invitation to ANOTHER group (2) carrying group 1's nostr group id (101) collides -/
+example (b : Backend) : collides (cJoined b) { wInv with rid := some 9, gid := 2, nid := 101 } :=
+  ⟨1, _, (by cases b <;> decide : findGroup (cJoined b).store 1 = some
+      { gid := 1, nid := 101, nameLen := 5, descLen := 3, admins := 1, img := 0, lastId := none, lastAt := none,
+        lastProc := none, epoch := 2, state := 0, selfUpd := 0 }), rfl, by decide⟩
+
+/-- one step of any history keeps the routing invariant -/
+theorem nid_inv_step (c : Client) (o : TOp) (h : NidOK c) : NidOK (tapply c o) := by
+  cases o with
+  | inv o =>
+    cases o with
+    | process wr m => exact process_nidInv c wr m h
+    | accept m => exact accept_nidInv c m h
+    | decline m => exact decline_nidInv c m h
+  | commit k => exact deliverCommit_nidInv c k h
+  | probe gid nid tok seq => exact deliverApp_nidInv c gid nid tok seq h
+
+theorem nid_inv_run (c : Client) (ops : List TOp) (h : NidOK c) : NidOK (trun c ops) := by
+  induction ops generalizing c with
+  | nil => exact h
+  | cons o os ih => exact ih _ (nid_inv_step c o h)
+
+/-- **nid_unique_inv.**  Over ALL histories of invitation operations (process / accept / decline of any
+    invitations under any wrapper ids), deliveries of commits of any group (incl. commits that rotate the nostr
+    group id, onto any value) and stored application messages, in any order and of any length, on both
+    backends: no two groups of the client ever carry the same nostr group id — the routing key of C08 — and the
+    store answers the id of every record with that record's group. -/
+theorem nid_unique_inv (b : Backend) (ops : List TOp) :
+    (∀ a a' g g', findGroup (trun (Client.empty b) ops).store a = some g →
+      findGroup (trun (Client.empty b) ops).store a' = some g' → g.nid = g'.nid → a = a') ∧
+    (∀ a g, findGroup (trun (Client.empty b) ops).store a = some g →
+      ∃ x, findGroupNostr (trun (Client.empty b) ops).store g.nid = some x ∧ x.gid = a) := by
+  have h : NidOK (trun (Client.empty b) ops) := nid_inv_run _ ops (nidInv_empty b)
+  exact ⟨h.uniq, nidInv_routes _ h⟩
+
+/-- … and `cJoined`, the client of the closed witnesses, is reachable, hence satisfies `NidOK` -/
+example (b : Backend) : NidOK (cJoined b) := by
+  have : cJoined b = trun (Client.empty b) [.inv (.process 10 wInv), .inv (.accept wInv), .commit wCommit] := by
+    cases b <;> rfl
+  rw [this]; exact nid_inv_run _ _ (nidInv_empty b)
+
+/-- the invariant is not vacuous: a history in which the recipient joins group 1, group 1 rotates to id 300,
+    and the recipient then holds group 2 under group 1's FORMER id 101 -/
+example : ((trun (Client.empty .sql)
+    [.inv (.process 10 wInv), .inv (.accept wInv),
+     .commit { wCommit with toNid := 300 },
+     .inv (.process 20 { wInv with rid := some 5, gid := 2, nid := 101 })]).store.groups.map (fun g => (g.gid, g.nid)))
+    = [(1, 300), (2, 101)] := by decide
+
+/-! ### closed witnesses (replayed on the implementation: `corpus/C16/nid_collision_*.trace`) -/
+
+/-- every table of the client an invitation could touch is the same (decidable, for closed witnesses) -/
+def sameAll (c c' : Client) : Prop :=
+  c'.store.groups = c.store.groups ∧ c'.store.byNid = c.store.byNid ∧ c'.store.relays = c.store.relays ∧
+  c'.store.welcomes = c.store.welcomes ∧ c'.store.pws = c.store.pws ∧ c'.store.msgs = c.store.msgs ∧ c'.mls = c.mls
+
+instance (c c' : Client) : Decidable (sameAll c c') := by unfold sameAll; infer_instance
+
+/-- the hostile invitation: ANOTHER group (2), carrying the nostr group id 101 of the group the user is in, other
+    name, other inviter -/
+def wHostile : Invite := { wInv with rid := some 9, gid := 2, nid := 101, nameLen := 9, tok := 50, welcomer := 2 }
+
+/-- **C16_witness_collision_refused.**  On both backends the hostile invitation is refused, under the first and
+    under any other wrapper id, the client — record, MLS state, routing of group 1 — is literally unchanged and
+    can still read group 1; accept / decline have nothing to act on.  Once group 1 has rotated away (to id 300)
+    and the recipient has followed, the SAME invitation under the SAME wrapper id is stored, can be accepted,
+    and both groups are routed by their own ids. -/
+theorem C16_witness_collision_refused (b : Backend) :
+    let c := cJoined b
+    (process c 30 wHostile).2 = .err .group ∧ sameAll c (process c 30 wHostile).1 ∧
+    (process c 31 wHostile).2 = .err .group ∧ sameAll c (process c 31 wHostile).1 ∧
+    (accept c wHostile).2 = .err .noStored ∧ sameAll c (accept c wHostile).1 ∧
+    (decline c wHostile).2 = .err .noStored ∧ sameAll c (decline c wHostile).1 ∧
+    canDecrypt c 1 101 1 = true ∧
+    (let c1 := (deliverCommit c { gid := 1, nid := 101, toNid := 300, fromTok := 1, toTok := 2, toEpoch := 3, members := 2, nameLen := 5, removesMe := false }).1
+     let c2 := (process c1 30 wHostile).1
+     let c3 := (accept c2 wHostile).1
+     (process c1 30 wHostile).2 = .welcome (welcomeOf wHostile 9 30) ∧ (accept c2 wHostile).2 = .done ∧
+     (c3.store.groups.map (fun g => (g.gid, g.nid, g.state))) = [(1, 300, 0), (2, 101, 0)] ∧
+     canDecrypt c3 1 300 2 = true ∧ canDecrypt c3 2 101 50 = true) := by
+  cases b <;> decide
+
+/-- the squat (observation, not a violation of C16's text: no group the user is Active in is touched): a
+    stranger's invitation that is merely RECEIVED — Pending, never consented to, even declined — occupies its
+    nostr group id; the genuine invitation to the group that really uses this id is refused for as long as that
+    record exists. -/
+theorem C16_witness_squat (b : Backend) :
+    let c1 := (process (Client.empty b) 30 wHostile).1
+    let c2 := (decline c1 wHostile).1
+    (process (Client.empty b) 30 wHostile).2 = .welcome (welcomeOf wHostile 9 30) ∧
+    (process c1 10 wInv).2 = .err .group ∧ sameAll c1 (process c1 10 wInv).1 ∧ (decline c1 wHostile).2 = .done ∧
+    (process c2 10 wInv).2 = .err .group ∧ sameAll c2 (process c2 10 wInv).1 := by
+  cases b <;> decide
+
+/-- the full-strength reading "an invitation the user never consented to has no influence on the groups the user
+    IS in, now or later" … -/
+def unconsented_invitation_inert : Prop :=
+  ∀ (c : Client) (wr : Nat) (m : Invite) (k : Commit), isActive c k.gid = true → isActive c m.gid = false →
+    (deliverCommit c k).2 = .applied → (deliverCommit (process c wr m).1 k).2 = .applied
+
+/-- … is false of the code (the known mechanism store-limit-sync-failure of C06 / C08 through a new door): a
+    merely received invitation occupies nostr group id 300; when the group the user is Active in later rotates
+    to 300, the commit is merged into the MLS state and the store then refuses the synced record — the group
+    is one epoch ahead of its record and is no longer routed by the id its other members use. -/
+theorem unconsented_invitation_inert_false : ¬ unconsented_invitation_inert := by
+  intro h
+  have := h (cJoined .sql) 30 { wHostile with nid := 300 }
+    { gid := 1, nid := 101, toNid := 300, fromTok := 1, toTok := 2, toEpoch := 3, members := 2, nameLen := 5, removesMe := false }
+    (by decide) (by decide) (by decide)
+  revert this; decide
+
+/-! ### the exporter-secret cache (found by the correspondence run of the thorough tier) -/
+
+def isWelcome : Res → Bool
+  | .welcome _ => true
+  | _ => false
+
+/-- the full-strength reading of "accepting a valid invitation puts the joiner in exactly the inviter's post-commit
+    group state": … and the joiner reads what the inviter sends from that state under the group's id -/
+def accept_then_readable : Prop :=
+  ∀ (c : Client) (wr : Nat) (m : Invite), isWelcome (process c wr m).2 = true →
+    (accept (process c wr m).1 m).2 = .done → canDecrypt (accept (process c wr m).1 m).1 m.gid m.nid m.tok = true
+
+/-- … is false of the code (OBSERVATION `joined-but-unreadable:stale-exporter-secret`; it needs the open finding
+    welcome-foreign-creator-replaces-mls first).  `exporter_secret` is get-or-create on (group id, epoch NUMBER).  The
+    user accepted a foreign creator's group carrying group 1's MLS group id (epoch 1, state 50), and one event was routed
+    to it — any event tagged with its id, here one of another group: `decrypt_message` caches the secret of the group it
+    routes to before it knows anything else.  The genuine invitation (epoch 1, state 0) is then processed and accepted:
+    the MLS state IS the inviter's (`accept_state`), the record is the invitation's — and the outer layer of every event
+    of the group is opened with the cached secret of state 50: nothing the group sends is ever read, the commit to
+    epoch 2 included.  Replayed by `corpus/C16/stale_exporter_secret_after_foreign_accept.trace`. -/
+theorem accept_then_readable_false : ¬ accept_then_readable := by
+  intro h
+  let forged : Invite := { wInv with rid := some 9, nid := 777, nameLen := 9, tok := 50, welcomer := 2 }
+  let c1 := (process (Client.empty .sql) 30 forged).1
+  let c2 := (accept c1 forged).1
+  let c3 := (deliverApp c2 5 777 99 1).1
+  have := h c3 10 wInv (by decide) (by decide)
+  revert this; decide
+
+/-- the control: without an event routed to the foreign group nothing is cached and the genuine group is readable;
+    and in the witness the joiner's MLS state is exactly the inviter's -/
+example :
+    let forged : Invite := { wInv with rid := some 9, nid := 777, nameLen := 9, tok := 50, welcomer := 2 }
+    let c2 := (accept (process (Client.empty .sql) 30 forged).1 forged).1
+    let c3 := (deliverApp c2 5 777 99 1).1
+    canDecrypt (accept (process c2 10 wInv).1 wInv).1 1 101 0 = true ∧
+    alookup 1 (accept (process c3 10 wInv).1 wInv).1.mls = some { tok := 0, epoch := 1, members := 2 } ∧
+    canDecrypt (accept (process c3 10 wInv).1 wInv).1 1 101 0 = false := by decide
 
 end MdkVerif.Props.C16
